@@ -226,14 +226,17 @@ PROPS = {
     "C04": dict(
         suites=[40],
         features=[(), ("udp",)], features_thorough=[(), ("udp",)],
+        translator="unsafe_sites.py",
         design_ref="DESIGN.md section 5, C04",
         rule=("suite 40: (message, entry point, limit) triples; messages constructed to land on limit-2..limit+2 via payload, via option bytes and via both, limits {0,3,4,5,6,17,64,255,256,1279,1280,1281,64000,64001,random}, "
               "default entry point around MAX_SIZE (read from the build: 1280 / 64000 with udp) for every token length, 0.00 messages with unsent payloads, option values of 65803..131342 bytes, random messages x random limits; "
               "classes 1 fits / 2 exactly at limit / 3 one over / 4 further over / 5 unlimited / 6 over-long value; non-trivial = API-buildable state; distinct = distinct input"),
         level_text=("Theorem C04_limit_exact: for every well-formed state and every limit, to_bytes_internal returns the wire image iff wire_len <= limit and InvalidPacketLength otherwise; C04_length: the image has exactly wire_len bytes "
-                    "(4 + token + options + marker/payload when sent); C04_oversize_value_refused; C04_no_panic. Unbounded over messages and limits."),
-        level_note=("Model tied by differential execution on default and udp builds, dev and release. The memory-safety clause (raw-pointer copies stay inside reserved capacity) is a runtime fact about the compiled code: "
-                    "it is covered only in so far as the output bytes equal the model's on every case; see DESIGN.md section 7."),
+                    "(4 + token + options + marker/payload when sent); C04_oversize_value_refused; C04_no_panic. Unbounded over messages and limits. "
+                    "Memory clause: C04_unsafe_sites_in_bounds -- the three unsafe blocks of to_bytes_internal are re-extracted from /repo/src/packet.rs on every run (tools/unsafe_sites.py -> coq/gen/UnsafeSites.v: reserve amount, ptr::copy offsets and lengths, set_len, as sums of length symbols) "
+                    "and proved, for ALL lengths, to copy only inside the reserved capacity and the source and to expose only initialised bytes."),
+        level_note=("Model tied by differential execution on default and udp builds, dev and release. The memory clause is proved about the index arithmetic as written in the source (the translator and Rust's documented Vec::reserve / set_len / ptr::copy contracts are trusted); "
+                    "that the compiled binary performs no out-of-bounds write is a runtime fact outside any Coq model (DESIGN.md section 7)."),
         modelled="src/packet.rs Packet::to_bytes, to_bytes_with_limit, to_bytes_unlimited, to_bytes_internal",
     ),
     "C07": dict(
